@@ -125,6 +125,92 @@ def _cmp_op(test: ast.AST) -> str:
     raise ValueError(f"not a single comparison: {ast.unparse(test)}")
 
 
+def _get_action_signatures() -> List[Tuple[str, List[str]]]:
+    """Every class under game/agent (interface.py and scripted_agents/*.py) that defines `get_action`: its parameter names."""
+    from harness.lib.core import SRC
+    out = []
+    files = ["game/agent/interface.py"] + sorted(SA + f.name for f in (SRC / SA).glob("*.py") if f.name != "__init__.py")
+    for rel in files:
+        for n in ast.walk(parse(rel)):
+            if isinstance(n, ast.ClassDef):
+                for m in n.body:
+                    if isinstance(m, ast.FunctionDef) and m.name == "get_action":
+                        a = m.args
+                        if a.vararg or a.kwarg or a.kwonlyargs or a.posonlyargs:
+                            raise ValueError(f"{n.name}.get_action: unexpected parameter kinds")
+                        out.append((n.name, [x.arg for x in a.args]))
+    if not out:
+        raise ValueError("no get_action found")
+    return out
+
+
+def _game_call() -> str:
+    """How `PrimaiteGame.apply_agent_actions` calls the agents."""
+    t = parse("game/game.py")
+    calls = [n for n in ast.walk(t) if isinstance(n, ast.Call) and isinstance(n.func, ast.Attribute) and n.func.attr == "get_action"
+             and ast.unparse(n.func.value) == "agent"]
+    if len(calls) != 1:
+        raise ValueError(f"game.py: expected one agent.get_action call, found {len(calls)}")
+    c = calls[0]
+    return ", ".join([ast.unparse(a) for a in c.args] + [f"{k.arg}={ast.unparse(k.value)}" for k in c.keywords])
+
+
+def _return_handler(t_abs: ast.AST) -> Tuple[str, str]:
+    """`_tap_return_handler`: the test that answers True without reading the history, and the look-up that follows."""
+    fn = find_method(class_def(t_abs, "AbstractTAP"), "_tap_return_handler")
+    body = [st for st in fn.body if not (isinstance(st, ast.Expr) and isinstance(st.value, ast.Constant))]
+    if not (len(body) == 3 and isinstance(body[0], ast.If) and isinstance(body[1], ast.If) and isinstance(body[2], ast.Return)):
+        raise ValueError("_tap_return_handler: expected `if …: return True`, `if <lookup>: …; return False`, `return True`")
+    g = body[0]
+    if not (len(g.body) == 1 and isinstance(g.body[0], ast.Return) and ast.unparse(g.body[0].value) == "True" and not g.orelse):
+        raise ValueError("_tap_return_handler: first test does not `return True`")
+    if ast.unparse(body[2].value) != "True" or not isinstance(body[1].body[-1], ast.Return) or ast.unparse(body[1].body[-1].value) != "False":
+        raise ValueError("_tap_return_handler: return values not recognised")
+    return ast.unparse(g.test), ast.unparse(body[1].test)
+
+
+def _exploit_trial(t3: ast.AST) -> Tuple[str, str, str]:
+    """`TAP003._exploit`: guard of the entry trial, the probability it passes to the trial, what it sets on success."""
+    fn = find_method(class_def(t3, "TAP003"), "_exploit")
+    outer = next(st for st in fn.body if isinstance(st, ast.If))
+    inner = outer.body[0]
+    if not isinstance(inner, ast.If):
+        raise ValueError("TAP003._exploit: first statement of the stage body is not the trial guard")
+    t = inner.body[0]
+    if not (isinstance(t, ast.If) and isinstance(t.test, ast.UnaryOp) and isinstance(t.test.op, ast.Not)
+            and isinstance(t.test.operand, ast.Call) and ast.unparse(t.test.operand.func) == "self._agent_trial_handler"):
+        raise ValueError("TAP003._exploit: trial not recognised")
+    if not isinstance(t.body[-1], ast.Return):
+        raise ValueError("TAP003._exploit: failed trial does not return")
+    last = inner.body[-1]
+    if not isinstance(last, ast.Assign):
+        raise ValueError("TAP003._exploit: no progress assignment after the trial")
+    return ast.unparse(inner.test), ast.unparse(t.test.operand.args[0]), ast.unparse(last)
+
+
+def _action_params(tree: ast.AST, cls_name: str) -> List[Tuple[str, List[Tuple[str, str]]]]:
+    """Every `self.chosen_action = "<name>", {…}` of the class, in source order: the action name and, per key, the
+    source expression of its value (`**x` is listed as key "**")."""
+    out = []
+    cls = class_def(tree, cls_name)
+    for n in sorted((n for n in ast.walk(cls) if isinstance(n, ast.Assign)), key=lambda n: n.lineno):
+        if len(n.targets) == 1 and ast.unparse(n.targets[0]) == "self.chosen_action":
+            v = n.value
+            if not (isinstance(v, ast.Tuple) and len(v.elts) == 2 and isinstance(v.elts[0], ast.Constant) and isinstance(v.elts[1], ast.Dict)):
+                raise ValueError(f"{cls_name}: chosen_action assigned from {ast.unparse(v)}")
+            if v.elts[0].value == "do-nothing":
+                if v.elts[1].keys:
+                    raise ValueError(f"{cls_name}: do-nothing with parameters")
+                continue
+            kv = [("**" if k is None else ast.literal_eval(k), ast.unparse(x).replace('"', "'")) for k, x in zip(v.elts[1].keys, v.elts[1].values)]
+            out.append((v.elts[0].value, kv))
+    return out
+
+
+def _lean_params(xs) -> str:
+    return "[" + ",\n  ".join(f'("{n}", [' + ", ".join(f'("{k}", "{e}")' for k, e in kv) + "])" for n, kv in xs) + "]"
+
+
 def emit() -> str:
     t_abs = parse(SA + "abstract_tap.py")
     t1 = parse(SA + "TAP001.py")
@@ -177,6 +263,9 @@ def emit() -> str:
     t_rand_args = randint_args(find_method(class_def(t_abs, "AbstractTAP"), "_set_next_execution_timestep"))
     tap_settings = [c for c in ast.walk(class_def(t_abs, "AbstractTAP")) if isinstance(c, ast.ClassDef) and c.name == "AgentSettingsSchema"][0]
 
+    sigs = _get_action_signatures()
+    empty_guard, lookup = _return_handler(t_abs)
+    ex_guard, ex_prob, ex_set = _exploit_trial(t3)
     return f"""namespace Primaite.Gen.Agents
 /-- `BaseKillChain`, `KillChainStageProgress` (abstract_tap.py) -/
 def baseKillChain : List (String × Int) := {_lean_pairs(base)}
@@ -211,5 +300,18 @@ def periodicDefaults : List (String × Int) := {_lean_pairs([(k, _field_default(
 def tapDefaults : List (String × Int) := {_lean_pairs([(k, int(_field_default(tap_settings, k))) for k in ("start_step", "frequency", "variance", "repeat_kill_chain", "repeat_kill_chain_stages")])}
 /-- how `ProbabilisticAgent.probabilities` orders the vector handed to numpy: "insertion" = `list(d.values())`, "byKey" = indexed by action number -/
 def probVectorOrder : String := "{_prob_vector_order(t_prob)}"
+/-- parameter names of every `get_action` under game/agent, and how `PrimaiteGame.apply_agent_actions` calls it -/
+def getActionParams : List (String × List String) := [{", ".join(f'("{n}", {_lean_strs(a)})' for n, a in sigs)}]
+def gameGetActionCall : String := "{_game_call()}"
+/-- `_tap_return_handler`: answers True without reading the history when this holds; otherwise the look-up -/
+def tapReturnEmptyGuard : String := "{empty_guard}"
+def tapReturnLookup : String := "{lookup.replace('"', "'")}"
+/-- `TAP003._exploit`: guard of the entry trial, probability handed to the trial, assignment after a passed trial -/
+def tap3ExploitTrialGuard : String := "{ex_guard}"
+def tap3ExploitTrialProb : String := "{ex_prob}"
+def tap3ExploitTrialSet : String := "{ex_set}"
+/-- every non-idle `self.chosen_action = name, {{…}}` in source order, with the source expression of each parameter -/
+def tap1ActionParams : List (String × List (String × String)) := {_lean_params(_action_params(t1, "TAP001"))}
+def tap3ActionParams : List (String × List (String × String)) := {_lean_params(_action_params(t3, "TAP003"))}
 end Primaite.Gen.Agents
 """
